@@ -2071,7 +2071,12 @@ impl RulesSim {
         let snap = self.e.to_ledger_snapshot();
         let me = sc_address(&self.c);
         let mut out = vec![];
-        for (k, _) in snap.ledger_entries.iter() {
+        let seq = self.e.ledger().sequence();
+        for (k, (_, live_until)) in snap.ledger_entries.iter() {
+            // an entry past its live-until ledger is gone for the contract
+            if live_until.map(|l| l < seq).unwrap_or(false) {
+                continue;
+            }
             if let xdr::LedgerKey::ContractData(cd) = k.as_ref() {
                 if cd.contract != me {
                     continue;
